@@ -535,46 +535,48 @@ PROFILE_GAPS = {
 
 
 def gap_search(pid, key):
-    """-> (hit or None, stats): the supplement is cached per tree like the pipeline"""
+    """-> (hit or None, stats).  One pass per operator over every tape of its gap scenarios collects the first
+    failing tape of every property; the result is cached per tree like the pipeline."""
     path = os.path.join(BUILD, "cache", f"{key}.gaps.json")
+    lock = open(os.path.join(BUILD, "cache", ".gaps.lock"), "w")
+    fcntl.flock(lock, fcntl.LOCK_EX)
     try:
-        cache = json.load(open(path))
-    except Exception:
-        cache = {}
-    stats, hit = [], None
-    for op, gap in sorted(PROFILE_GAPS.items()):
-        if pid not in gap["properties"]:
-            continue
-        ck = f"{op}:{pid}"
-        if ck not in cache:
-            if tree_changed_since_replay_build() and not build_replay():
+        try:
+            cache = json.load(open(path))
+        except Exception:
+            cache = {}
+        stats, hit = [], None
+        for op, gap in sorted(PROFILE_GAPS.items()):
+            if pid not in gap["properties"]:
                 continue
-            excl = []
-            for f in load_findings().get("findings", []):
-                if f.get("replay") and f["replay"]["scenario"].rstrip("LXPR") in [x.rstrip("LXPR") for x in gap["scenarios"]]:
-                    for x in f.get("excludes", [f["replay"]["expect"]]):
-                        excl += ["--exclude", x]
-            entry = {"scenarios": [], "runs": 0, "hit": None}
-            for sc in gap["scenarios"]:
-                try:
-                    p = subprocess.run([REPLAY, "search", sc, "--property", pid, "--len", str(gap.get("len", 10)), "--budget", "1500000"] + excl, capture_output=True, text=True, timeout=900)
-                    d = json.loads(p.stdout)
-                except Exception:
+            if op not in cache:
+                if tree_changed_since_replay_build() and not build_replay():
                     continue
-                if d.get("tape") is not None:
-                    d["scenario"] = sc
-                    entry["hit"] = d
-                    break
-                entry["scenarios"].append(sc)
-                entry["runs"] += d.get("runs", 0)
-            cache[ck] = entry
-            os.makedirs(os.path.dirname(path), exist_ok=True)
-            json.dump(cache, open(path, "w"))
-        e = cache[ck]
-        stats.append({"operator": op, "outside_the_proved_profile": gap["why"], "scenarios": e["scenarios"], "runs": e["runs"], "max_len": gap.get("len", 10)})
-        if e.get("hit") and hit is None:
-            hit = dict(e["hit"], operator=op, why=gap["why"])
-    return hit, stats
+                excl = []
+                for f in load_findings().get("findings", []):
+                    if f.get("replay") and f["replay"]["scenario"].rstrip("LXPR") in [x.rstrip("LXPR") for x in gap["scenarios"]]:
+                        for x in f.get("excludes", [f["replay"]["expect"]]):
+                            excl += ["--exclude", x]
+                entry = {"scenarios": [], "runs": 0, "hits": {}}
+                for sc in gap["scenarios"]:
+                    try:
+                        p = subprocess.run([REPLAY, "collect", sc, "--len", str(gap.get("len", 10)), "--budget", "3000000"] + excl, capture_output=True, text=True, timeout=900)
+                        d = json.loads(p.stdout)
+                    except Exception:
+                        continue
+                    entry["scenarios"].append(sc + (" (budget exhausted)" if d.get("budget_exhausted") else ""))
+                    entry["runs"] += d.get("runs", 0)
+                    for pp, hh in d.get("hits", {}).items():
+                        entry["hits"].setdefault(pp, dict(hh, scenario=sc))
+                cache[op] = entry
+                json.dump(cache, open(path, "w"))
+            e = cache[op]
+            stats.append({"operator": op, "outside_the_proved_profile": gap["why"], "scenarios": e["scenarios"], "runs": e["runs"], "max_len": gap.get("len", 10)})
+            if pid in e.get("hits", {}) and hit is None:
+                hit = dict(e["hits"][pid], operator=op, why=gap["why"])
+        return hit, stats
+    finally:
+        fcntl.flock(lock, fcntl.LOCK_UN)
 
 
 def replay_run(scenario, tape):
